@@ -226,6 +226,9 @@ impl Property for C05 {
             5 => sel().prop_map(|sel| Ev::PollOp { sel }),
             6 => ack(deco()),
             1 => Just(Ev::Settle),
+            // a caller giving up on one operation must not change how the OTHERS complete (only
+            // those are judged here; what happens to the abandoned one is C15's claim)
+            1 => sel().prop_map(|sel| Ev::DropOp { sel }),
         ]
         .boxed();
         no_inbound(scenario(Just(None).boxed(), ev, 1..tier.pick(60, 200)))
@@ -247,16 +250,27 @@ impl Property for C05 {
             Ev::PollOp { sel: 0 },
             Ev::PollOp { sel: 65535 },
         ];
+        // QoS 2 / QoS 1 publishes with one of them abandoned at every point
+        let with_drop = vec![
+            Ev::Start { h: 0, kind: OpKind::Pub2, settle: false, solo: false },
+            Ev::Start { h: 0, kind: OpKind::Pub1, settle: false, solo: false },
+            Ev::In(Inbound::Ack { sel: 0, deco: d }),
+            Ev::In(Inbound::Ack { sel: 65535, deco: d }),
+            Ev::Settle,
+            Ev::PollCtx,
+            Ev::DropOp { sel: 0 },
+        ];
         Box::new(
             sequences(alphabet, tier.pick(5, 7), worker, workers)
-                .map(|events| Scenario { receive_max: None, max_packet_size: None, id_offset: 0, prologue: 0, events }),
+                .map(|events| Scenario { receive_max: None, max_packet_size: None, id_offset: 0, prologue: 0, events })
+                .chain(sequences(with_drop, tier.pick(6, 8), worker, workers).map(|events| Scenario { receive_max: None, max_packet_size: None, id_offset: 0, prologue: 0, events })),
         )
     }
 
     fn assumptions() -> Vec<String> {
         vec![
             "conformant broker: acknowledgements only for packets that reached the wire, with their identifier and type, at most one per phase, PINGRESP in order".into(),
-            "no cancellation in these histories (C15 covers it)".into(),
+            "operations whose future was dropped are not judged here (C15 covers them); the others are".into(),
         ]
     }
 
